@@ -23,6 +23,14 @@ Proof. vm_compute; reflexivity. Qed.
 Theorem C10_fiber_sites_known : fiber_sites_match YVGen.FiberSites.fiber_sites = true.
 Proof. vm_compute; reflexivity. Qed.
 
+(* --- tie (round 9): every debug-only construct of yarel/src (debug_assert!*, debug_assertions, overflow_checks) is one
+   of the 12 fork guards the model knows, in the function the model attributes it to.  A NEW debug-only assertion or
+   branch breaks this obligation by name; the plug-in's search is then aimed at the function it sits in. --- *)
+Theorem C10_debug_sites_known : debug_sites_match YVGen.FiberSites.debug_sites = true.
+Proof. vm_compute; reflexivity. Qed.
+Theorem C10_debug_sites_are_fork_guards : debug_sites_are_fork_guards = true.
+Proof. vm_compute; reflexivity. Qed.
+
 (* --- tie: run()'s dispatch has an arm for every opcode of the enum, and the verifier's opcode numbering has
    exactly as many opcodes as the enum --- *)
 Theorem C10_dispatch_covers_enum :
@@ -103,6 +111,8 @@ Print Assumptions C10_cfg_sites_known.
 Print Assumptions C10_cfg_sites_equal.
 Print Assumptions C10_cfg_sites_per_fork.
 Print Assumptions C10_fiber_sites_known.
+Print Assumptions C10_debug_sites_known.
+Print Assumptions C10_debug_sites_are_fork_guards.
 Print Assumptions C10_dispatch_covers_enum.
 Print Assumptions C10_config_of_build_dev_all_checked.
 Print Assumptions C10_configs_count.
